@@ -942,7 +942,7 @@ def run(ctx):
     self_check()
     quick = ctx.tier == "quick"
     runner.run_items(ctx, "symbols", symbol_items(), check_symbol)
-    total_m = 4800 if quick else 64000
-    total_d = 1600 if quick else 16000
+    total_m = 4000 if quick else 48000
+    total_d = 1200 if quick else 12000
     runner.run_given(ctx, "matrix", matrix_cases(ctx.tier), check_matrix, total_m // ctx.nshards)
     runner.run_given(ctx, "datasets", dataset_cases(), check_dataset, total_d // ctx.nshards)
